@@ -201,14 +201,25 @@ int main()
                     else if (t[i][0] == 's') ev->AddString(unhex(t[i].substr(1)).c_str());
                     else ev->AddNil();
                 }
+                if (t[1][0] == '@') {
+                    // `@name`: the host starts the thread through the by-name overloads
+                    const StringResolvable byName(t[1].c_str() + 1);
+                    if (t[2] == "-") g_ctx->GetDirector().ExecuteThread(byName, *ev);
+                    else g_ctx->GetDirector().ExecuteThread(byName, *ev, StringResolvable(t[2].c_str()));
+                } else {
                 const ProgramScript* s = g_ctx->GetDirector().GetProgramScript(t[1].c_str());
                 if (t[2] == "-") g_ctx->GetDirector().ExecuteThread(s, *ev);
                 else g_ctx->GetDirector().ExecuteThread(s, *ev, t[2].c_str());
+                }
                 g_events.emplace_back(std::move(ev), t.size() - 3);     // only successful calls leave a record
                 extra = " ret=" + resultOf(g_events.size() - 1);
             } else if (op == "callv" && t.size() == 3) {
+                if (t[1][0] == '@') {
+                    g_ctx->GetDirector().ExecuteThread(StringResolvable(t[1].c_str() + 1), StringResolvable(t[2].c_str()));
+                } else {
                 const ProgramScript* s = g_ctx->GetDirector().GetProgramScript(t[1].c_str());
                 g_ctx->GetDirector().ExecuteThread(s, t[2].c_str());
+                }
             } else if (op == "thread-result") {
                 extra = " ret=" + allResults();
             } else if (op == "advance" && t.size() == 2) {
